@@ -1515,6 +1515,22 @@ func c03Rekey(c *Ctx) {
 		if pt, _, ok := p1.DecryptFrames(wire); !ok || !bytes.Equal(pt, answer) {
 			c.Violate("the answer to a pair-verify finish on an encrypted connection is not sent under the session that was in use", id, in, "decrypts under the old session", fmt.Sprintf("%d bytes, ok=%v", len(pt), ok))
 		}
+		// … and what the accessory writes from now on (the next response, an event) goes out under the NEW session
+		raw.mu.Lock()
+		nOut := len(raw.out)
+		raw.mu.Unlock()
+		later := []byte("EVENT/1.0 200 OK\r\nContent-Length: 0\r\n\r\n")
+		conn.Write(later)
+		raw.mu.Lock()
+		var wire2 []byte
+		for _, o := range raw.out[nOut:] {
+			wire2 = append(wire2, o...)
+		}
+		raw.mu.Unlock()
+		if pt, _, ok := p2.DecryptFrames(wire2); !ok || !bytes.Equal(pt, later) {
+			_, _, underOld := p1.DecryptFrames(wire2)
+			c.Violate("what the accessory writes after the answer to a second pair-verify is not sent under the newly negotiated session", id, in, "decrypts under the new session (frame counter 0)", fmt.Sprintf("%d bytes, ok=%v, decrypts under the old session: %v", len(pt), ok, underOld))
+		}
 		request := []byte("GET /accessories HTTP/1.1\r\nHost: x\r\n\r\n")
 		raw.push(p2.Encrypt(request))
 		if !pending {
